@@ -15,6 +15,7 @@ import (
 	"os"
 	"reflect"
 	"strconv"
+	"unsafe"
 )
 
 type verifNondet struct {
@@ -124,6 +125,25 @@ func verifAtQuiescence(f func())             {}
 func verifBlockedThreads() int               { return 0 }
 func verifUF1(name string, x float64) float64 { return x }
 func verifUF2(name string, x, y float64) float64 { return x }
+
+// verifSetField stores v into the (possibly unexported) field of the struct p points to; path is a
+// dot-separated field path. It lets a harness build partial objects of other packages' types.
+func verifSetField(p any, path string, v any) {
+	rv := reflect.ValueOf(p).Elem()
+	start := 0
+	for i := 0; i <= len(path); i++ {
+		if i == len(path) || path[i] == '.' {
+			rv = rv.FieldByName(path[start:i])
+			start = i + 1
+		}
+	}
+	dst := reflect.NewAt(rv.Type(), unsafe.Pointer(rv.UnsafeAddr())).Elem()
+	if v == nil {
+		dst.Set(reflect.Zero(rv.Type()))
+		return
+	}
+	dst.Set(reflect.ValueOf(v).Convert(rv.Type()))
+}
 
 // verifRun is the native replay entry.
 func verifRun(h func()) {
